@@ -146,9 +146,9 @@ def recursion_text(rng: random.Random) -> str:
         # code-block arguments forwarded through macros, incl. a block that splices the very parameter it is bound to
         pi, po = rng.choice([("b", "b"), ("b", "c"), ("blk", "blk")])
         body = rng.choice(["{{%s}}" % pi, "nop\n{{%s}}\n{{%s}}" % (pi, pi)])
-        arg = rng.choice(["{ {{%s}} }" % po, "{ nop\n{{%s}} }" % po, "{ {{%s}} }" % pi])
-        return (f"*=0x008000\n.macro inner({pi}) {{\n{body}\n}}\n.macro outer({po}) {{\ninner({arg})\n}}\nouter({{ nop }})\n"
-                + rng.choice(["", f"inner({{ {{{{{pi}}}}} }})\n", "outer({ outer({ nop }) })\n"]))
+        arg = rng.choice(["{\n{{%s}}\n}" % po, "{\nnop\n{{%s}}\n}" % po, "{\n{{%s}}\n}" % pi])
+        return (f"*=0x008000\n.macro inner({pi}) {{\n{body}\n}}\n.macro outer({po}) {{\ninner({arg})\n}}\nouter({{\nnop\n}})\n"
+                + rng.choice(["", "inner({\n{{%s}}\n})\n" % pi, "outer({\nouter({\nnop\n})\n})\n"]))
     calls = rng.randint(1, 3)
     bounded = rng.random() < 0.5
     guard = rng.choice(["pn", "flag", "1", "flag & 1", "pn + flag"])
